@@ -193,3 +193,16 @@ package schema
 //@   requires s != nil
 //@   nopanic
 //@   ensures result == s.schema
+
+// ---- C16: "schema type inference: enum > or > type rule > precision > JSON kind" ----
+//@ func getASTNodeSchemaType(n)
+//@   props C16
+//@   requires isNode(n) && consReady(n)
+//@   requires hasRule(n, constraint.TypeConstraintType) && typeis(consOf(n).data[constraint.TypeConstraintType], *constraint.TypeConstraint) ==> ival(consOf(n).data[constraint.TypeConstraintType]) != 0 && len(unbox(consOf(n).data[constraint.TypeConstraintType], *constraint.TypeConstraint).value) <= 1000000000000
+//@   nopanic
+//@   ensures hasRule(n, constraint.EnumConstraintType) ==> result == "enum"
+//@   ensures !hasRule(n, constraint.EnumConstraintType) && hasRule(n, constraint.OrConstraintType) ==> result == "mixed"
+//@   ensures !hasRule(n, constraint.EnumConstraintType) && !hasRule(n, constraint.OrConstraintType) && hasRule(n, constraint.TypeConstraintType) && typeis(consOf(n).data[constraint.TypeConstraintType], *constraint.TypeConstraint)
+//@           ==> spellsDecoded(result, unbox(consOf(n).data[constraint.TypeConstraintType], *constraint.TypeConstraint).value)
+//@   ensures !hasRule(n, constraint.EnumConstraintType) && !hasRule(n, constraint.OrConstraintType) && !(hasRule(n, constraint.TypeConstraintType) && typeis(consOf(n).data[constraint.TypeConstraintType], *constraint.TypeConstraint))
+//@           ==> result == (hasRule(n, constraint.PrecisionConstraintType) ? "decimal" : jsonTypeStr(jtypeOf(n)))
